@@ -9,6 +9,8 @@ from contracts.interp_sim import SIFILE
 from contracts.publish import (PFILE, IFILE, OFILE, phase_unit, full_unit, pattern_unit, forward_unit, symbol_table_unit, symbol_refusal_unit, table_kept_unit, publish_bounded)
 from .c04 import py_lib, STFILE
 
+BOUNDED = {}
+TIER = ['quick']
 PAT_ARMS = ['EVar', 'SVar', 'Symbol', 'Implies', 'App', 'Exists', 'Mu', 'MetaVar', 'ESubst', 'SSubst']
 
 
@@ -21,6 +23,13 @@ def units_for(repo, cs, pid):
     for c in PAT_ARMS:
         us.append(Unit(f'{pid}/py/Interpreter.pattern/{c}', pattern_unit(repo, cs, c, False), info={'split_depth': 1}))
     us.append(Unit(f'{pid}/py/MemoizingInterpreter.pattern', pattern_unit(repo, cs, 'Implies', True), info={'split_depth': 1}))
+    for k in (0, 1, 2, 3):
+        for w, tag in ((False, ''), ('base', '[through MemoizingInterpreter]')):
+            if w and k > (2 if TIER[0] == 'thorough' else 1):
+                continue
+            n = f'{pid}/py/Interpreter.pattern{tag}/Instantiate [|map| = {k}]'
+            us.append(Unit(n, pattern_unit(repo, cs, 'Instantiate', w, inst_k=k), info={'split_depth': 1}))
+            BOUNDED[n] = f'Interpreter.pattern on a notation node: symbolic definition, keys and plugs, arbitrary tracker state, but the map has exactly {k} entries (bound: |map| <= 3)'
     for c in PAT_ARMS:
         us.append(Unit(f'{pid}/py/Interpreter.pattern[through MemoizingInterpreter]/{c}', _wrapped_arm(repo, cs, c), info={'split_depth': 1}))
     for m in ('publish_axiom', 'publish_claim', 'publish_proof', 'into_claim_phase', 'into_proof_phase'):
@@ -42,6 +51,7 @@ def _wrapped_arm(repo, cs, c):
 
 
 def build(repo, tier):
+    TIER[0] = tier
     notes = []
     try:
         JE = reflect_bool_method(repo, 'evar_is_free')
@@ -67,6 +77,8 @@ def build(repo, tier):
                                ('generation/src/proof_generation/interpreter_transformer.py', 'InterpreterTransformer.publish_proof'),
                                (SIFILE, 'SerializingInterpreter.symbol'), ('generation/src/proof_generation/io_interpreter.py', 'IOInterpreter.into_claim_phase'),
                                ('generation/src/proof_generation/io_interpreter.py', 'IOInterpreter.into_proof_phase')] + dfn, notes=notes)
+
+    spec.bounded_units = BOUNDED
 
     def replayer(name, model, root):
         w, n = publish_bounded(name, root, 'thorough', 0)
